@@ -14,6 +14,8 @@
 (* `truncated') is not a message - the harness sends every such prefix     *)
 (* after a complete message on another connection and requires that it is  *)
 (* rejected and that the backend sees nothing of it.                       *)
+(* Tsetattr stands for bit sets and scalars: lengths 0..3 select growing    *)
+(* sets of valid bits (3: all nine), every value is unique to its message. *)
 (* Types whose name starts with R are replies decoded by the p9 CLIENT     *)
 (* (Rreaddir, Rwalk, Rread, the xattr list, Rreadlink): `seen' is then     *)
 (* what the call returned to its caller.  NoCarryOver is a state           *)
